@@ -59,6 +59,65 @@ func catValue(e ast.Expr) (int, error) {
 	return 0, fmt.Errorf("unknown category %s", sel.Sel.Name)
 }
 
+// issetWordBits reads, from the repo under test, the word width of the required-field bitset of genFastRead:
+// the type name given to newBitsetCodeGen in gen_fastread.go, looked up in the switch of bitset.go.
+func issetWordBits(repo string) (int, error) {
+	fset := token.NewFileSet()
+	fr, err := goparser.ParseFile(fset, filepath.Join(repo, "generator", "fastgo", "gen_fastread.go"), nil, 0)
+	if err != nil {
+		return 0, err
+	}
+	typename := ""
+	ast.Inspect(fr, func(n ast.Node) bool {
+		if c, ok := n.(*ast.CallExpr); ok {
+			if id, ok := c.Fun.(*ast.Ident); ok && id.Name == "newBitsetCodeGen" && len(c.Args) == 2 {
+				if bl, ok := c.Args[1].(*ast.BasicLit); ok && bl.Kind == token.STRING {
+					typename, _ = strconv.Unquote(bl.Value)
+				}
+			}
+		}
+		return true
+	})
+	if typename == "" {
+		return 0, fmt.Errorf("gen_fastread.go: newBitsetCodeGen(…, \"<type>\") not found")
+	}
+	bs, err := goparser.ParseFile(fset, filepath.Join(repo, "generator", "fastgo", "bitset.go"), nil, 0)
+	if err != nil {
+		return 0, err
+	}
+	bits := 0
+	ast.Inspect(bs, func(n ast.Node) bool {
+		cc, ok := n.(*ast.CaseClause)
+		if !ok {
+			return true
+		}
+		match := false
+		for _, e := range cc.List {
+			if bl, ok := e.(*ast.BasicLit); ok && bl.Kind == token.STRING {
+				if v, _ := strconv.Unquote(bl.Value); v == typename {
+					match = true
+				}
+			}
+		}
+		if match {
+			for _, st := range cc.Body {
+				if as, ok := st.(*ast.AssignStmt); ok && len(as.Rhs) == 1 {
+					if sel, ok := as.Lhs[0].(*ast.SelectorExpr); ok && sel.Sel.Name == "varbits" {
+						if bl, ok := as.Rhs[0].(*ast.BasicLit); ok && bl.Kind == token.INT {
+							bits, _ = strconv.Atoi(bl.Value)
+						}
+					}
+				}
+			}
+		}
+		return true
+	})
+	if bits == 0 {
+		return 0, fmt.Errorf("bitset.go: no varbits for type %q", typename)
+	}
+	return bits, nil
+}
+
 // extract prints Generated/C10.lean from generator/fastgo/consts.go and utils.go (go/ast over the
 // composite literals) of the repo under test.
 func extract(repo string) error {
@@ -291,6 +350,11 @@ func extract(repo string) error {
 	fmt.Fprintf(&sb, "def category2WireSize : List Nat := %s\n", list(tables["category2WireSize"]))
 	sb.WriteString("\n/-- utils.go isContainerType: categories answered `true` -/\n")
 	fmt.Fprintf(&sb, "def containerCats : List Nat := %s\n", list(containerCats))
+	wb, err := issetWordBits(repo)
+	if err != nil {
+		return err
+	}
+	fmt.Fprintf(&sb, "\n/-- word width of the required-field bitset of genFastRead (newBitsetCodeGen type in gen_fastread.go, varbits in bitset.go);\n    it drives the required-field counts and whole-word deletion patterns of the harness -/\ndef issetWordBits : Nat := %d\n", wb)
 	sb.WriteString("\n/-! facts about the text the code writers emit -/\n")
 	for _, f := range facts {
 		fmt.Fprintf(&sb, "/-- %s -/\ndef %s : Bool := %v\n", f.doc, f.name, f.val)
